@@ -39,8 +39,9 @@ def floatOK (r : String) : Bool :=
 /-- **NoH3**: a custom-scalar string default that Python's `float()` cannot parse (the printer would re-guess it as a
     number): conservatively, a string without digits that is not a spelling of inf/nan — or a plain integer text -/
 def notFloatLike (x : String) : Bool :=
-  isIntText x || (!(x.toList.any Char.isDigit) &&
-    !(["inf", "+inf", "-inf", "nan", "+nan", "-nan", "infinity", "+infinity", "-infinity"].contains (strip x).toLower))
+  let cs := ((x.toList.dropWhile isWs).reverse.dropWhile isWs).reverse.map Char.toLower
+  isIntText x || (!(cs.any Char.isDigit) &&
+    !(["inf", "+inf", "-inf", "nan", "+nan", "-nan", "infinity", "+infinity", "-infinity"].map String.toList).contains cs)
 
 /-- canonical NON-NULL value of the named leaf type `nm` -/
 def leafOK (s : SchemaD) (nm : String) (v : J) : Bool :=
@@ -56,7 +57,7 @@ def leafOK (s : SchemaD) (nm : String) (v : J) : Bool :=
       | .scalar => (match v with | .bool _ => true | .str x => notFloatLike x | _ => false)
       | .enum =>
         (match v with
-         | .str x => (match t.values.find? (·.value == .str x) with | some ev => ev.name == x | none => false)
+         | .str x => (match t.values.find? (fun ev => jEq ev.value (.str x)) with | some ev => ev.name == x | none => false)
          | _ => false)
       | _ => false
 
@@ -162,7 +163,7 @@ theorem leaf_roundtrip_doc (s : SchemaD) (nm : String) (v : J) (h : leafOK s nm 
       have hdk : (typeToDef s t).kind = .enum := hk
       cases v <;> simp at h
       rename_i x
-      cases hf : t.values.find? (·.value == .str x) with
+      cases hf : t.values.find? (fun ev => jEq ev.value (.str x)) with
       | none => simp [hf] at h
       | some ev =>
         simp only [hf] at h
